@@ -23,10 +23,12 @@ MODELS_JSON = os.path.join(BUILD, 'models.json')
 
 C02_MODELS = {'scalars', 'collections', 'plain', 'extra', 'dashed',
               'dashed_sav', 'enum_str', 'hier', 'hooks', 'ambig', 'optreq',
-              'chain', 'absmix', 'unk', 'mixin', 'nested'}
+              'chain', 'absmix', 'unk', 'mixin', 'nested', 'dictkey',
+              'lists', 'mergecls'}
 C03_MODELS = {'hier', 'discrim', 'ambig', 'enum_str', 'plain', 'multi',
-              'chain', 'absmix', 'mixin'}
-C10_MODELS = {'hooks', 'dashed_sav', 'adversarial', 'parsed', 'mixin', 'multi'}
+              'chain', 'absmix', 'mixin', 'inhrec', 'samename'}
+C10_MODELS = {'hooks', 'dashed_sav', 'adversarial', 'parsed', 'mixin', 'multi',
+              'samename', 'inhrec'}
 C17_STRONG = {'plain', 'extra', 'dashed_sav', 'enum_str', 'collections',
               'scalars'}
 
@@ -185,6 +187,15 @@ def ref_case(c):
     return d
 
 
+def f7(c, o):
+    """Known finding F7 explains a property-level failure only where the
+    faithful pipeline model itself predicts what the code did (the alias
+    revisit is modelled); a disagreement between code and model is never F7."""
+    if not c['dev']['alias']:
+        return None
+    return 'F7' if cmp_outcome(c, o) is None else None
+
+
 def rel_c01(c):
     out = []
     if not c['inv']['TypeSafe']:
@@ -195,7 +206,7 @@ def rel_c01(c):
                     'non-conforming arguments: %s' % json.dumps(c['log'])[:300],
                     None))
     o = loadreplay.observe(c)
-    fid = 'F7' if c['dev']['alias'] else None
+    fid = f7(c, o)
     if o['outcome'] == 'VAL' and not o['conforms']:
         out.append(('impl', 'load(%r) as %s returned %s, which does not '
                     'conform to the type' % (o['text'], json.dumps(c['dt']),
@@ -220,7 +231,7 @@ def rel_c02(c):
     d = cmp_outcome(c, o)
     if d:
         out.append(('impl', 'load(%r) as %s: %s' % (
-            o['text'], json.dumps(c['dt']), d), fid))
+            o['text'], json.dumps(c['dt']), d), None))
     elif o['outcome'] == 'ERR' and o['errclass'] != 'RecErr' and \
             set(c['res'][1]) <= {'RecErr'}:
         out.append(('impl', 'load(%r) as %s raised %s, not RecognitionError'
@@ -262,7 +273,7 @@ def rel_c04(c):
                     'call or non-plain data below Any: %s' % json.dumps(
                         c['res'])[:300], 'F7' if c['dev']['alias'] else None))
     o = loadreplay.observe(c, canary=True)
-    fid = 'F7' if c['dev']['alias'] else None
+    fid = f7(c, o)
     if o['bad_ctor_args']:
         out.append(('impl', 'load(%r): constructor received unchecked '
                     'arguments %s' % (o['text'], o['bad_ctor_args']), fid))
@@ -320,7 +331,7 @@ def rel_c10(c):
         out.append(('model', 'specification calls a hook of a class that does '
                     'not define it: %s' % json.dumps(c['log'])[:300], None))
     o = loadreplay.observe(c)
-    fid = 'F7' if c['dev']['alias'] else None
+    fid = None
     for e in o['log']:
         if e[0] in ('sav', 'rec') and e[1] != e[2]:
             out.append(('impl', 'load(%r): %s hook defined in %s was called '
@@ -481,17 +492,22 @@ def rel_c18(c):
     n += 1
     same = (o['outcome'] == oe['outcome'] and
             (o['outcome'] == 'ERR' or o['value'] == oe['value']))
+    # the faithful model's own verdict on transparency for this document
+    spec_same = (c['res'][0] == c['ref'][0] and
+                 (c['res'][0] == 'ERR' or c['res'][1] == c['ref'][1]))
     if not same:
+        known = 'F7' if (c['dev']['alias'] and not spec_same and
+                         cmp_outcome(c, o) is None) else None
         out.append(('impl', 'aliased %r -> %s but expanded %r -> %s' % (
             o['text'], json.dumps(o.get('value', o.get('errclass')))[:200],
             oe['text'], json.dumps(oe.get('value', oe.get('errclass')))[:200]),
-            fid))
+            known))
     else:
         # and both are what the specification predicts for the expanded form
         d = cmp_outcome(ref_case(c), oe)
         if d:
             out.append(('impl', 'expanded document %r as %s: %s' % (
-                oe['text'], json.dumps(c['dt']), d), fid))
+                oe['text'], json.dumps(c['dt']), d), None))
     return out, n
 
 
@@ -674,7 +690,7 @@ def run(pid, tier, replay=None, extra=None):
     # random behaviours well beyond the exhaustive bound (TLC simulation mode:
     # documents of up to 12 / 10 occurrences), same relations
     if pid in SIM_FOR:
-        num = 4000 if tier == 'quick' else 60000
+        num = 1500 if tier == 'quick' else 60000
         for cfg in SIM_FOR[pid]:
             stats, cases = tlc_cases(cfg, simulate='num=%d' % num)
             stats['what'] += ' (simulation, %d behaviours)' % len(cases)
@@ -696,7 +712,7 @@ def replay_cases(V, pid, cases):
 
 
 # ------------------------------------------------ C17: the strong claim -----
-STRONG_MODELS = {'nested', 'plain', 'enum_str', 'optreq'}
+STRONG_MODELS = {'nested', 'plain', 'enum_str', 'optreq', 'lists'}
 
 
 def typed_positions(b, doc, dt):
@@ -772,7 +788,21 @@ def corruptions(b, doc, dt):
         if r is None:
             continue
         nd = h[n - 1]
-        sites = [x for x in (n, p['key'], p['parent']) if x]
+        # acceptable places: the node, its key, the start of the enclosing
+        # MAPPING (for an item of a list that is the mapping holding the
+        # list, with the key the list stands under) - not the list itself
+        sites = [x for x in (n, p['key']) if x]
+        q = p
+        while q is not None and q['parent']:
+            par = [z for z in pos if z['node'] == q['parent']]
+            if not par:
+                break
+            if h[q['parent'] - 1]['k'] == 'm':
+                sites.append(q['parent'])
+                break
+            q = par[0]
+            if q['key']:
+                sites.append(q['key'])
         if r[0] in ('int', 'str', 'float', 'bool') and nd['k'] == 's' and \
                 p['decl'][0] != 'union' and p['decl'][0] != 'any':
             d = copy.deepcopy(doc)
@@ -786,6 +816,10 @@ def corruptions(b, doc, dt):
             d = copy.deepcopy(doc)
             d['h'][n - 1].update(t='str', v='zz')
             res.append(('unknown enum member', d, sites, None))
+            d = copy.deepcopy(doc)
+            d['h'][n - 1].update(t='bool', v='false')
+            res.append(('unknown enum member (looks like a boolean)', d,
+                        sites, None))
         if r[0] == 'class' and b.byname[r[1]]['kind'] == 'plain' and \
                 nd['k'] == 'm':
             c = b.byname[r[1]]
